@@ -15,8 +15,8 @@ import traceback
 
 ROOT = os.path.dirname(os.path.dirname(os.path.abspath(__file__)))
 REPO = os.environ.get("VERIF_REPO", "/repo")
-EVIDENCE_DIR = os.path.join(ROOT, "evidence")
-REPLAY_DIR = os.path.join(ROOT, "replays")
+EVIDENCE_DIR = os.environ.get("VERIF_EVIDENCE_DIR", os.path.join(ROOT, "evidence"))
+REPLAY_DIR = os.environ.get("VERIF_REPLAY_DIR", os.path.join(ROOT, "replays"))
 KNOWN = os.path.join(ROOT, "KNOWN_FINDINGS.json")
 
 LEVELS = ("exploration", "fault_enumeration", "model_checking", "proof", "translation_validation", "other")
@@ -127,6 +127,11 @@ class Check:
             json.dump(ev, fh, indent=1, default=_jd)
         os.replace(tmp, os.path.join(EVIDENCE_DIR, f"{self.pid}.json"))
         if self.violations:
+            counts = {}
+            for sig, _w, _p in self.violations:
+                counts[sig] = counts.get(sig, 0) + 1
+            for sig, c in sorted(counts.items(), key=lambda kv: -kv[1])[:40]:
+                print(f"  {c:5d} x {sig}", flush=True)
             print(f"{self.pid}: {len(self.violations)} violation(s)", flush=True)
             return 1
         if self.machinery_errors:
@@ -176,10 +181,9 @@ def _load_known(pid):
 
 
 def _sig_match(pattern, sig):
-    """Known-finding signatures are exact strings or prefixes ending in '*'."""
-    if pattern.endswith("*"):
-        return sig.startswith(pattern[:-1])
-    return pattern == sig
+    """Known-finding signatures are exact strings or shell-style globs ('*' matches any run of characters)."""
+    import fnmatch
+    return fnmatch.fnmatchcase(sig, pattern)
 
 
 def pmap(fn, items, procs=None, chunksize=1):
